@@ -117,7 +117,7 @@ def run_jobs(jobs, procs=16):
         return pool.map(_work, jobs, chunksize=max(1, len(jobs) // (procs * 8)))
 
 
-DUMP_KEYS = {"setOrder": "set-order", "firstMatch": "union-first-match", "leftTuple": "tuple-left-unserialised", "jsonKeyCollision": "json-key-collision", "serLenient": "serialize-lenient-member", "setListing": "set-listing-order", "serCollision": "set-written-with-duplicates", "yamlFloatStr": "yaml-float-string", "inPlace": "reparse-union-in-place",
+DUMP_KEYS = {"setOrder": "set-order", "reparseShift": "reparse-first-match-shift", "firstMatch": "union-first-match", "leftTuple": "tuple-left-unserialised", "jsonKeyCollision": "json-key-collision", "serLenient": "serialize-lenient-member", "setListing": "set-listing-order", "serCollision": "set-written-with-duplicates", "yamlFloatStr": "yaml-float-string", "inPlace": "reparse-union-in-place",
              "leftObject": "enum-member-first-leaves-object", "leftSet": "enum-member-first-leaves-set",
              "excLeak": "reparse-union-vals-last", "origNested": "reparse-union-orig-nested", "litEq": "reparse-literal-eq", "dictKey": "reparse-dict-key"}
 
